@@ -59,6 +59,7 @@ type c12World struct {
 	nconn  int
 	banned map[string]bool // "k/c": k left or declined chat c and has not re-joined
 	deaf   [3]bool         // the client has stopped reading its socket
+	canRead [3]bool        // current read-chat privilege of each slot's account (an administrator may edit it)
 }
 
 func (x *c12World) fail(clause, detail string) {
@@ -128,7 +129,7 @@ func (x *c12World) apply(op string, check bool) bool {
 		}
 	}
 	settle := func() { world.Quiet() }
-	if x.deaf[k] && p[0] != "off" {
+	if x.deaf[k] && p[0] != "off" && p[0] != "edit" {
 		return false // a client that does not read cannot see replies: it issues nothing further
 	}
 	switch p[0] {
@@ -152,6 +153,22 @@ func (x *c12World) apply(op string, check bool) bool {
 			if !old[u.ID] {
 				x.ids[k] = u.ID
 			}
+		}
+		expectKnown = false
+	case "edit":
+		// an administrator toggles the read-chat privilege of the slot's account while its session is live
+		acc := world.Bits(ref.PSendChat, ref.POpenChat, ref.PAnyName)
+		if !c12CanSend[k] {
+			acc = world.Bits(ref.POpenChat, ref.PAnyName)
+		}
+		x.canRead[k] = !x.canRead[k]
+		if x.canRead[k] {
+			acc[ref.PReadChat/8] |= 0x80 >> uint(ref.PReadChat%8)
+		}
+		id := x.probe().Req(ref.TSetUser, ref.F(ref.FUserLogin, obf(fmt.Sprintf("s%d", k))), ref.FS(ref.FUserName, c12Names[k]), ref.F(ref.FUserPassword, []byte{0}), ref.F(ref.FUserAccess, acc[:]))
+		settle()
+		if r := x.probe().Reply(id); r == nil || r.Err != 0 {
+			x.fail("edit/set-user-refused", fmt.Sprint(r))
 		}
 		expectKnown = false
 	case "deaf":
@@ -192,7 +209,7 @@ func (x *c12World) apply(op string, check bool) bool {
 		if c12CanSend[k] {
 			line := c12Format(c12Names[k], msg, emote)
 			for i := range x.cl {
-				if x.on[i] && c12CanRead[i] {
+				if x.on[i] && x.canRead[i] {
 					expect = append(expect, c12Delivery{i, "106 pub " + line})
 				}
 			}
@@ -418,16 +435,16 @@ func (x *c12World) canon() string {
 		b = append(b, k)
 	}
 	sort.Strings(b)
-	fmt.Fprintf(&sb, " left%v deaf%v", b, x.deaf)
+	fmt.Fprintf(&sb, " left%v deaf%v read%v", b, x.deaf, x.canRead)
 	return sb.String()
 }
 
 func c12Exec(hist []string) (res explore.SeqResult) {
 	s := seq(func() {
-		accts := append([]world.Acct{{Login: "probe", Name: "probe", Password: "pp", Access: world.Bits(ref.PAnyName)}}, c12Accounts...)
+		accts := append([]world.Acct{{Login: "probe", Name: "probe", Password: "pp", Access: world.Bits(ref.PAnyName, ref.PModifyUser)}}, c12Accounts...)
 		wd := world.New(world.Cfg{Accounts: accts})
 		defer wd.Close()
-		x := &c12World{wd: wd, banned: map[string]bool{}}
+		x := &c12World{wd: wd, banned: map[string]bool{}, canRead: [3]bool{c12CanRead[0], c12CanRead[1], c12CanRead[2]}}
 		var r *ref.Tx
 		c12Probe, r = wd.Connect("10.9.9.9:999", "probe", "pp", "probe") // no chat privileges: never part of any audience
 		if r == nil || r.Err != 0 {
@@ -462,7 +479,7 @@ func c12Exec(hist []string) (res explore.SeqResult) {
 
 func c12Alphabet() []string {
 	return []string{
-		"on:0", "on:1", "on:2", "off:0", "off:1", "off:2", "deaf:0", "deaf:2",
+		"on:0", "on:1", "on:2", "off:0", "off:1", "off:2", "deaf:0", "deaf:2", "edit:0", "edit:1",
 		"pub:0:plain", "pub:0:emote", "pub:0:zero", "pub:0:long", "pub:0:edge", "pub:0:longemote", "pub:1:plain", "pub:1:long", "pub:2:plain",
 		"new:0:1", "new:0:2", "new:1:0", "new:1:2",
 		"inv:0:0:2", "inv:1:0:2", "inv:1:1:0",
